@@ -242,6 +242,9 @@ def r_call(call, style, root_ctx, chain):
     items = [r_elem(c, style) for c in caps] + [
         r_call(k, style, False, chain=style.get("inner_chain", False)) for k in kids
     ]
+    if style.get("group_items"):
+        # grouping parentheses around each argument: f((a), (g(b)))
+        items = [[("o", "(")] + it + [("o", ")")] for it in items]
     toks = list(fn)
     if items or suffix or style.get("always_parens", False) or tail is None:
         toks.append(("o", "("))
@@ -275,6 +278,8 @@ STYLES = [
     {"name": "paren-ret", "ret_sugar": True},  # f() as r / f(b)=c
     {"name": "chain-ret", "chain": True, "chain_all": True, "ret_sugar": True},
     {"name": "chain-marked", "chain": True, "chain_all": True, "mark_after_gt": True},  # f > !x
+    {"name": "paren-grouped-items", "group_items": True},  # f((a), (g((b))))
+    {"name": "chain-grouped-items", "chain": True, "chain_all": True, "group_items": True},
 ]
 
 
